@@ -380,6 +380,7 @@ def watch_history(ctx, res, cp, prop, h, length=4, stack=False):
             out = open(logpath, "rb").read()[before:].decode("utf-8", "replace")
             segments.append(out)
         alive = p.poll() is None
+        died_rc = p.returncode
     finally:
         p.send_signal(signal.SIGINT)
         try:
@@ -419,7 +420,11 @@ def watch_history(ctx, res, cp, prop, h, length=4, stack=False):
                 res.violate("%s/watch-diagnostic-differs" % prop,
                             "re-check #%d reports %s, a fresh check %s" % (k + 1, code_w.group(0), code_f.group(0)), detail)
     if not alive:
-        res.violate("%s/watch-died" % prop, "`lace watch` exited during the history", {"history": hist})
+        if died_rc is not None and died_rc < 0:
+            # killed from outside (signal): says nothing about lace
+            res.inconclusive["lace watch was killed by signal %d" % -died_rc] = 1
+        else:
+            res.violate("%s/watch-died" % prop, "`lace watch` exited (status %s) during the history" % died_rc, {"history": hist})
 
 
 # ------------------------------------------------------------------ C08
